@@ -88,6 +88,67 @@ func raceMain(args []string) {
 			wg.Wait()
 			total += G
 		}
+	} else if *mode == "twins" {
+		// two template files of ONE manager that look alike (directives at the same source positions, other expressions),
+		// executed concurrently and in every serial order: each equals its run-alone output
+		mkf := func(obj, frag string) string {
+			return "<ul>\n  <li :range=\"_, u : " + obj + "\" :text=\"${u}\">o</li>\n</ul><p :if=\"${len(" + obj + ") > 1}\" :insert=\"" + frag + "\">x</p>"
+		}
+		files := [][2]string{{"a.html", mkf("users", "fa") + "<b :define=\"fa\">A</b>"}, {"b.html", mkf("posts", "fb") + "<b :define=\"fb\">B</b>"}}
+		want := map[string]string{
+			"a.html": "<ul>\n  <li>ann</li>\n<li>bob</li>\n</ul><p>A</p>",
+			"b.html": "<ul>\n  <li>p1</li>\n<li>p2</li>\n<li>p3</li>\n</ul><p>B</p>",
+		}
+		data := map[string]any{"users": []string{"ann", "bob"}, "posts": []string{"p1", "p2", "p3"}}
+		for round := 0; round < *rounds; round++ {
+			rc := &renderCase{Files: files, Tpl: "a.html"}
+			m, lerr, p := implLoad(rc, nil)
+			if lerr != nil || p != nil {
+				fmt.Println("RACE-RESULT " + `{"executions":0,"mismatches":1,"samples":["twin templates do not load"]}`)
+				return
+			}
+			G := 2 + r.n(10)
+			var wg sync.WaitGroup
+			start := make(chan struct{})
+			got := make([]string, G)
+			names := make([]string, G)
+			for g := 0; g < G; g++ {
+				names[g] = []string{"a.html", "b.html"}[(g+round)%2]
+				wg.Add(1)
+				go func(g int) {
+					defer wg.Done()
+					t, err := m.tm.GetTemplate(names[g])
+					if err != nil {
+						got[g] = "ERR " + err.Error()
+						return
+					}
+					if round%3 != 0 {
+						<-start // concurrent rounds; every third round is serial in goroutine order
+					}
+					w := &chunkWriter{failAt: -1}
+					if err := t.Execute(w, data); err != nil {
+						got[g] = strings.Join(w.chunks, "") + " ERR " + err.Error()
+					} else {
+						got[g] = strings.Join(w.chunks, "")
+					}
+				}(g)
+				if round%3 == 0 {
+					wg.Wait()
+				}
+			}
+			close(start)
+			wg.Wait()
+			for g := 0; g < G; g++ {
+				total++
+				if got[g] != want[names[g]] {
+					mismatches++
+					if len(samples) < 5 {
+						samples = append(samples, J{"files": files, "tpl": names[g], "goroutines": G, "serial_round": round%3 == 0,
+							"alone": want[names[g]], "here": trunc(got[g], 200)})
+					}
+				}
+			}
+		}
 	} else if *mode == "deep" {
 		// many executions that are DEEP inside nested fragments at the same moment: a data-bounded recursive fragment
 		// whose innermost level calls a barrier function, so that all goroutines are at their full depth together
@@ -307,6 +368,9 @@ func propC15(c *ctx) error {
 		return run("reload", c.n(40, 1500))
 	}
 	if err := run("deep", c.n(6, 80)); err != nil {
+		return err
+	}
+	if err := run("twins", c.n(30, 600)); err != nil {
 		return err
 	}
 	return run("render", c.n(120, 5000))
